@@ -435,7 +435,8 @@ func UnmarshalError(r xml.TokenReader) (Error, error) {
 	iter := xmlstream.NewIter(r)
 	for iter.Next() {
 		start, p := iter.Current()
-		if start.Name.Local != "error" {
+		// Skip anything that is not an element (eg. character data).
+		if start == nil || start.Name.Local != "error" {
 			continue
 		}
 
